@@ -43,13 +43,13 @@ def runOpCore (s : DState) (name : String) (args : List SExp) : String :=
       | "equalc", [x, y] => s!"model={showRes (EqualM.top env T x y)} spec={Spec.structEqTopM env T x y}"
       | "equalf", [x, y] => s!"model={showRes (EqualM.field env T x y)} spec={Spec.structEqM env T x y}"
       | "compare", [x, y] =>
-        if env.noMethods then s!"model={showResI (Compare.top env T x y)} spec={Spec.cmpVal x y}"
+        if !mentionsMethods env T then s!"model={showResI (Compare.top env T x y)} spec={Spec.cmpVal x y}"
         else s!"model={showResI (CompareM.top env T x y)}"
       | "comparec", [x, y] =>
-        if env.noMethods then s!"model={showResI (Compare.top env T x y)} spec={Spec.cmpVal x y}"
+        if !mentionsMethods env T then s!"model={showResI (Compare.top env T x y)} spec={Spec.cmpVal x y}"
         else s!"model={showResI (CompareM.top env T x y)}"
       | "comparef", [x, y] =>
-        if env.noMethods then s!"model={showResI (Compare.field env T x y)} spec={Spec.cmpVal x y}"
+        if !mentionsMethods env T then s!"model={showResI (Compare.field env T x y)} spec={Spec.cmpVal x y}"
         else s!"model={showResI (CompareM.field env T x y)}"
       -- consistency of Compare with Equal: `cmp == 0` iff Equal (the emitted functions on the Go side)
       | "cmpeq", [x, y] =>
